@@ -1,11 +1,11 @@
 (* ParsedPrintable.v — closing the loop between the parser and the printer: every value the parser
    can return (from ANY byte stream, malformed regions included) satisfies the structural invariant
-   `parsed_ok`, and a `parsed_ok` value is `printable` except for two classes:
-     * the integer NNeg 0, which the parser produces from the text "-0" (finding: it prints as "0",
-       which reads back as NPos 0), excluded by `no_neg_zero`;
-     * with utf8 = false, strings or keys with a code point >= U+10000 (K1), excluded by `no_astral`.
+   `parsed_ok`, and a `parsed_ok` value is `printable true` (with --utf8-strings) outright, and
+   `printable false` exactly when it has no code point >= U+10000 (K1, `no_astral`).
    Non-finite doubles (K2) can NOT come out of the parser: parse_to_double rejects them, so every
-   parsed value is `nums_finite` without any hypothesis. *)
+   parsed value is `nums_finite` without any hypothesis.
+   (History: this file first isolated the text "-0", then read as the unprintable integer NNeg 0;
+   that defect has been repaired — "-0" now reads as NPos 0 — see `neg_zero_parsed`.) *)
 From Coq Require Import List NArith ZArith Bool Lia Zify ZifyClasses ZifyBool ZifyInst.
 From Jawk Require Import Base F64 F64Proofs Json Reader JsonParser Stream Printer Render.
 From Jawk Require Import ReaderLemmas ParserProofs PrinterProofs FloatText FloatOk Go GoProofs RoundTrip.
@@ -119,12 +119,12 @@ Qed.
 Definition scalars (s : str) : Prop := Forall (fun c => is_scalar c = true) s.
 Definition finite (f : N) : Prop := exists s m e, f_decode f = FFin s m e.
 
-(* what read_number can produce: a u64, an i64 that is <= 0 (NNeg 0 comes from the text "-0"),
+(* what read_number can produce: a u64, a strictly negative i64 (the text "-0" gives NPos 0),
    or a finite 64-bit double that From<f64> leaves a float *)
 Definition num_parsed (n : num) : Prop :=
   match n with
   | NPos n => n <= u64_max
-  | NNeg z => (i64_min <= z <= 0)%Z
+  | NNeg z => (i64_min <= z < 0)%Z
   | NFlt f => f < 18446744073709551616 /\ finite f /\ num_of_f f = NFlt f
   end.
 
@@ -140,8 +140,6 @@ Definition nums_finite : json -> Prop :=
   jall any_str (fun n => match n with NFlt f => finite f | _ => True end) any_keys.
 Definition no_astral : json -> Prop :=
   jall (Forall (fun c => c < 65536)) any_num any_keys.
-Definition no_neg_zero : json -> Prop :=
-  jall any_str (fun n => n <> NNeg 0) any_keys.
 
 (* their unfolding equations *)
 Lemma parsed_ok_str s : parsed_ok (JStr s) <-> scalars s.
@@ -174,16 +172,6 @@ Proof.
   unfold no_astral. rewrite jall_obj. unfold any_keys. tauto.
 Qed.
 
-Lemma no_neg_zero_num n : no_neg_zero (JNum n) <-> n <> NNeg 0.
-Proof. reflexivity. Qed.
-Lemma no_neg_zero_arr l : no_neg_zero (JArr l) <-> Forall no_neg_zero l.
-Proof. apply jall_arr. Qed.
-Lemma no_neg_zero_obj m : no_neg_zero (JObj m) <-> Forall (fun kv => no_neg_zero (snd kv)) m.
-Proof.
-  unfold no_neg_zero. rewrite jall_obj. unfold any_keys, any_str. rewrite !Forall_forall.
-  split; [intros [_ H] kv Hin; apply H, Hin|intros H; split; [exact I|intros kv Hin; split; [exact I|apply H, Hin]]].
-Qed.
-
 (* the side conditions are exactly what char_ok / num_ok ask beyond the parser's guarantees *)
 Lemma char_ok_true_iff c : char_ok true c <-> is_scalar c = true.
 Proof. unfold char_ok. split; [tauto|]. intros H. split; [exact H|discriminate]. Qed.
@@ -199,17 +187,13 @@ Proof.
   - intros [H1 H2]. split; [exact H1|]. intros _ _ _. exact H2.
 Qed.
 
-Lemma num_parsed_ok n : num_parsed n -> n <> NNeg 0 -> num_ok n.
+Lemma num_parsed_ok n : num_parsed n -> num_ok n.
 Proof.
   destruct n as [n|z|f]; cbn [num_parsed num_ok]; unfold u64_max, i64_min.
-  - intros H _. exact H.
-  - intros H Hz. assert (z <> 0%Z) by congruence. lia.
-  - intros (Hlt & (s & m & e & Hdec) & Hnf) _. exact (flt_okb_finite f s m e Hlt Hdec Hnf).
+  - intros H. exact H.
+  - intros H. exact H.
+  - intros (Hlt & (s & m & e & Hdec) & Hnf). exact (flt_okb_finite f s m e Hlt Hdec Hnf).
 Qed.
-
-(* conversely num_ok never holds of NNeg 0 *)
-Lemma neg_zero_not_num_ok : ~ num_ok (NNeg 0).
-Proof. cbn [num_ok]. lia. Qed.
 
 Theorem parsed_ok_finite v : parsed_ok v -> nums_finite v.
 Proof.
@@ -217,55 +201,35 @@ Proof.
   intros [n|z|f]; [intros; exact I|intros; exact I|]. intros (_ & H & _). exact H.
 Qed.
 
-Theorem parsed_ok_printable_utf8 v : parsed_ok v -> no_neg_zero v -> printable true v.
+(* with --utf8-strings every parser result is printable *)
+Theorem parsed_ok_printable_utf8 v : parsed_ok v -> printable true v.
 Proof.
-  intros H1 H2. apply printable_jall.
-  revert v H1 H2. apply jall_imp2.
-  - intros s Hs _. unfold scalars in Hs. rewrite Forall_forall in *. intros c Hc.
+  intros H. apply printable_jall. revert v H. apply jall_mono.
+  - intros s Hs. unfold scalars in Hs. rewrite Forall_forall in *. intros c Hc.
     apply char_ok_true_iff. apply Hs, Hc.
-  - intros n. apply num_parsed_ok.
-  - intros k Hk _. exact Hk.
+  - apply num_parsed_ok.
+  - intros k Hk. exact Hk.
 Qed.
 
-Theorem parsed_ok_printable_ascii v : parsed_ok v -> no_neg_zero v -> no_astral v -> printable false v.
+Theorem parsed_ok_printable_ascii v : parsed_ok v -> no_astral v -> printable false v.
 Proof.
-  intros H1 H2 H3. apply printable_jall.
-  assert (H12 : jall scalars num_ok (@NoDup str) v).
-  { revert v H1 H2 H3. intros v H1 H2 _. revert v H1 H2. apply jall_imp2.
-    - intros s Hs _. exact Hs.
-    - intros n. apply num_parsed_ok.
-    - intros k Hk _. exact Hk. }
-  clear H1 H2. revert v H12 H3. apply jall_imp2.
+  intros H1 H2. apply printable_jall. revert v H1 H2. apply jall_imp2.
   - intros s Hs Ha. unfold scalars in Hs. rewrite Forall_forall in *. intros c Hc.
     apply char_ok_false_iff. split; [apply Hs, Hc|apply Ha, Hc].
-  - intros n Hn _. exact Hn.
+  - intros n Hn _. apply num_parsed_ok, Hn.
   - intros k Hk _. exact Hk.
 Qed.
 
-(* the side conditions are also necessary: on parser results they are exactly printability *)
-Lemma printable_no_neg_zero utf8 v : printable utf8 v -> no_neg_zero v.
-Proof.
-  intros H. apply printable_jall in H. revert v H. apply jall_mono; try (intros; exact I).
-  intros n Hn ->. exact (neg_zero_not_num_ok Hn).
-Qed.
-
+(* the side condition is also necessary: on parser results it is exactly ASCII printability *)
 Lemma printable_no_astral v : printable false v -> no_astral v.
 Proof.
   intros H. apply printable_jall in H. revert v H. apply jall_mono; try (intros; exact I).
   intros s Hs. rewrite Forall_forall in *. intros c Hc. exact (proj2 (proj1 (char_ok_false_iff c) (Hs c Hc))).
 Qed.
 
-Theorem parsed_printable_utf8_iff v : parsed_ok v -> (printable true v <-> no_neg_zero v).
+Theorem parsed_printable_ascii_iff v : parsed_ok v -> (printable false v <-> no_astral v).
 Proof.
-  intros H. split; [apply printable_no_neg_zero|apply parsed_ok_printable_utf8, H].
-Qed.
-
-Theorem parsed_printable_ascii_iff v : parsed_ok v ->
-  (printable false v <-> no_neg_zero v /\ no_astral v).
-Proof.
-  intros H. split.
-  - intros Hp. split; [exact (printable_no_neg_zero false v Hp)|exact (printable_no_astral v Hp)].
-  - intros [Hz Ha]. exact (parsed_ok_printable_ascii v H Hz Ha).
+  intros H. split; [apply printable_no_astral|apply parsed_ok_printable_ascii, H].
 Qed.
 
 (* ================================================================== *)
@@ -394,6 +358,8 @@ Proof.
   unfold classify_number. destruct dbl; [apply parse_to_double_ok|].
   destruct neg.
   - destruct txt as [|c ds]; [discriminate|]. destruct ds as [|d ds']; [discriminate|].
+    cbv zeta. destruct (Z.eqb_spec (- Z.of_N (N_of_digits (d :: ds'))) 0) as [Hz|Hnz].
+    { intros H; injection H as <-. eexists. split; [reflexivity|]. cbn [num_parsed]. unfold u64_max. lia. }
     destruct (Z.leb_spec i64_min (- Z.of_N (N_of_digits (d :: ds')))) as [Hle|Hgt];
       [|apply parse_to_double_ok].
     intros H; injection H as <-. eexists. split; [reflexivity|]. cbn [num_parsed]. lia.
@@ -589,29 +555,27 @@ Proof.
 Qed.
 
 Theorem values_printable_utf8 : forall bs vs n, values_of_bytes bs = (vs, n) ->
-  Forall no_neg_zero vs -> Forall (printable true) vs.
+  Forall (printable true) vs.
 Proof.
-  intros bs vs n H Hz. apply values_parsed_ok in H. rewrite Forall_forall in *.
-  intros v Hv. apply parsed_ok_printable_utf8; [apply H, Hv|apply Hz, Hv].
+  intros bs vs n H. apply values_parsed_ok in H. rewrite Forall_forall in *.
+  intros v Hv. apply parsed_ok_printable_utf8, H, Hv.
 Qed.
 
 Theorem values_printable_ascii : forall bs vs n, values_of_bytes bs = (vs, n) ->
-  Forall no_neg_zero vs -> Forall no_astral vs -> Forall (printable false) vs.
+  Forall no_astral vs -> Forall (printable false) vs.
 Proof.
-  intros bs vs n H Hz Ha. apply values_parsed_ok in H. rewrite Forall_forall in *.
-  intros v Hv. apply parsed_ok_printable_ascii; [apply H, Hv|apply Hz, Hv|apply Ha, Hv].
+  intros bs vs n H Ha. apply values_parsed_ok in H. rewrite Forall_forall in *.
+  intros v Hv. apply parsed_ok_printable_ascii; [apply H, Hv|apply Ha, Hv].
 Qed.
 
-(* the form asked for in the plan (the finiteness hypothesis is redundant, see values_nums_finite) *)
+(* the form asked for in the plan *)
 Corollary parse_value_printable : forall fuel r v r', parse_value fuel r = (POk v, r') ->
-  nums_finite v /\
-  (no_neg_zero v -> printable true v) /\
-  (no_neg_zero v -> no_astral v -> printable false v).
+  nums_finite v /\ printable true v /\ (printable false v <-> no_astral v).
 Proof.
   intros fuel r v r' H. apply parse_value_parsed_ok in H. split; [|split].
   - apply parsed_ok_finite, H.
   - apply parsed_ok_printable_utf8, H.
-  - apply parsed_ok_printable_ascii, H.
+  - apply parsed_printable_ascii_iff, H.
 Qed.
 
 (* ================================================================== *)
@@ -620,85 +584,69 @@ Qed.
 Lemma values_fst bs : values_of_bytes bs = (fst (values_of_bytes bs), snd (values_of_bytes bs)).
 Proof. destruct (values_of_bytes bs); reflexivity. Qed.
 
-(* whatever jawk read, printed with --utf8-strings in any style, reads back as the same values *)
+(* whatever jawk read — from ANY byte stream — printed with --utf8-strings in any style, reads
+   back as exactly the same values, without errors *)
 Theorem parsed_roundtrip : forall st bs, let vs := fst (values_of_bytes bs) in
-  Forall no_neg_zero vs ->
   values_of_bytes (concat (map (fun v => print_json st true v ++ [10]) vs)) = (vs, 0).
 Proof.
-  intros st bs vs Hz. apply print_parse_roundtrip.
-  exact (values_printable_utf8 bs vs _ (values_fst bs) Hz).
+  intros st bs vs. apply print_parse_roundtrip.
+  exact (values_printable_utf8 bs vs _ (values_fst bs)).
 Qed.
 
 Theorem parsed_roundtrip_ascii : forall st bs, let vs := fst (values_of_bytes bs) in
-  Forall no_neg_zero vs -> Forall no_astral vs ->
+  Forall no_astral vs ->
   values_of_bytes (concat (map (fun v => print_json st false v ++ [10]) vs)) = (vs, 0).
 Proof.
-  intros st bs vs Hz Ha. apply print_parse_roundtrip.
-  exact (values_printable_ascii bs vs _ (values_fst bs) Hz Ha).
+  intros st bs vs Ha. apply print_parse_roundtrip.
+  exact (values_printable_ascii bs vs _ (values_fst bs) Ha).
 Qed.
 
 (* the default run (one line, ASCII) on the printed rows of whatever was read is a fixpoint *)
 Theorem parsed_fixpoint : forall bs, let vs := fst (values_of_bytes bs) in
-  Forall no_neg_zero vs -> Forall no_astral vs ->
+  Forall no_astral vs ->
   let out := concat (map (fun v => print_json OneLine false v ++ [10]) vs) in
   let g := go default_cfg [(None, map EB out)] true in
   g_result g = GOk /\
   concat (map (fun e => match e with OOut b => b | OErr _ => [] end) (g_events g)) = out.
 Proof.
-  intros bs vs Hz Ha. apply go_fixpoint.
-  exact (values_printable_ascii bs vs _ (values_fst bs) Hz Ha).
+  intros bs vs Ha. apply go_fixpoint.
+  exact (values_printable_ascii bs vs _ (values_fst bs) Ha).
 Qed.
 
 (* ================================================================== *)
-(* 8. the excluded classes are real                                    *)
+(* 8. the excluded class is real; samples                              *)
 (* ================================================================== *)
-(* FINDING: the text "-0" (bytes 45 48) is parsed as the integer NNeg 0 — str::parse::<i64>("-0")
-   is Ok(0), kept as NumberValue::Negative(0) — which is not printable: it is printed as "0",
-   and "0" reads back as NPos 0, a syntactically different value. *)
-Lemma neg_zero_parsed : values_of_bytes [45; 48] = ([JNum (NNeg 0)], 0).
-Proof. vm_compute. reflexivity. Qed.
-
-Lemma neg_zero_printable_refuted : forall utf8,
-  ~ (forall bs vs n, values_of_bytes bs = (vs, n) -> Forall (printable utf8) vs).
-Proof.
-  intros utf8 H. specialize (H _ _ _ neg_zero_parsed).
-  inversion H as [|? ? Hp _]; subst. cbn [printable num_ok] in Hp. lia.
-Qed.
-
-Lemma neg_zero_roundtrip_refuted : forall st utf8,
-  values_of_bytes (print_json st utf8 (JNum (NNeg 0)) ++ [10]) = ([JNum (NPos 0)], 0).
-Proof. intros [| |] [|]; vm_compute; reflexivity. Qed.
-
-(* so the unconditional round trip of parsed values is false in every style *)
-Lemma parsed_roundtrip_unconditional_refuted : forall st utf8,
-  ~ (forall bs, let vs := fst (values_of_bytes bs) in
-       values_of_bytes (concat (map (fun v => print_json st utf8 v ++ [10]) vs)) = (vs, 0)).
-Proof.
-  intros st utf8 H. specialize (H [45; 48]). rewrite neg_zero_parsed in H.
-  cbn [fst map concat] in H. rewrite app_nil_r in H.
-  rewrite neg_zero_roundtrip_refuted in H. discriminate.
-Qed.
-
-(* the two values are equal for jawk's own equality, so the defect is one of representation *)
-Lemma neg_zero_semantically_zero : jeqb (JNum (NNeg 0)) (JNum (NPos 0)) = true.
-Proof. reflexivity. Qed.
+(* repaired defect: the integer texts "-0" and "-00" read as the integer 0 (they used to read as
+   NNeg 0, which prints as "0" and reads back as NPos 0) *)
+Example neg_zero_parsed :
+  values_of_bytes [45; 48] = ([JNum (NPos 0)], 0) /\ values_of_bytes [45; 48; 48] = ([JNum (NPos 0)], 0).
+Proof. vm_compute. split; reflexivity. Qed.
 
 (* K1: U+10000 as raw UTF-8 (F0 90 80 80) is accepted and is not printable in ASCII mode *)
 Lemma astral_parsed : values_of_bytes [34; 240; 144; 128; 128; 34] = ([JStr [65536]], 0).
 Proof. vm_compute. reflexivity. Qed.
 
 Lemma astral_printable_refuted :
-  ~ (forall bs vs n, values_of_bytes bs = (vs, n) -> Forall no_neg_zero vs -> Forall (printable false) vs).
+  ~ (forall bs vs n, values_of_bytes bs = (vs, n) -> Forall (printable false) vs).
 Proof.
   intros H. specialize (H _ _ _ astral_parsed).
-  assert (Hz : Forall no_neg_zero [JStr [65536]]) by (constructor; [exact I|constructor]).
-  specialize (H Hz). inversion H as [|? ? Hp _]; subst. cbn [printable] in Hp.
+  inversion H as [|? ? Hp _]; subst. cbn [printable] in Hp.
   inversion Hp as [|? ? Hc _]; subst. apply char_ok_false_iff in Hc. lia.
 Qed.
 
 Lemma astral_roundtrip_refuted :
   values_of_bytes (print_json OneLine false (JStr [65536]) ++ [10]) = ([JStr [4096; 48]], 0).
 Proof. vm_compute. reflexivity. Qed.
+
+(* so the ASCII round trip of parsed values does need `no_astral` *)
+Lemma parsed_roundtrip_ascii_unconditional_refuted :
+  ~ (forall bs, let vs := fst (values_of_bytes bs) in
+       values_of_bytes (concat (map (fun v => print_json OneLine false v ++ [10]) vs)) = (vs, 0)).
+Proof.
+  intros H. specialize (H [34; 240; 144; 128; 128; 34]). rewrite astral_parsed in H.
+  cbn [fst map concat] in H. rewrite app_nil_r in H.
+  rewrite astral_roundtrip_refuted in H. discriminate.
+Qed.
 
 (* what the parser refuses (so these never reach the printer): non-finite doubles, lone or paired
    surrogate escapes, invalid raw UTF-8; and what it normalises: duplicate keys, integers beyond
@@ -714,6 +662,8 @@ Example parser_samples :
                                 = ([JNum (NFlt 4895412794951729152)], 0) /\
   (* -9223372036854775809 *)  values_of_bytes [45; 57; 50; 50; 51; 51; 55; 50; 48; 51; 54; 56; 53; 52; 55; 55; 53; 56; 48; 57]
                                 = ([JNum (NFlt 14114281232179134464)], 0) /\
+  (* -9223372036854775808 *)  values_of_bytes [45; 57; 50; 50; 51; 51; 55; 50; 48; 51; 54; 56; 53; 52; 55; 55; 53; 56; 48; 56]
+                                = ([JNum (NNeg (-9223372036854775808))], 0) /\
   (* -0.0 *)                  values_of_bytes [45; 48; 46; 48] = ([JNum (NPos 0)], 0).
 Proof. vm_compute. repeat split; reflexivity. Qed.
 
@@ -723,11 +673,10 @@ Print Assumptions values_parsed_ok.
 Print Assumptions values_nums_finite.
 Print Assumptions values_printable_utf8.
 Print Assumptions values_printable_ascii.
-Print Assumptions parsed_printable_utf8_iff.
+Print Assumptions parsed_ok_printable_utf8.
 Print Assumptions parsed_printable_ascii_iff.
 Print Assumptions parsed_roundtrip.
 Print Assumptions parsed_roundtrip_ascii.
 Print Assumptions parsed_fixpoint.
-Print Assumptions neg_zero_printable_refuted.
-Print Assumptions parsed_roundtrip_unconditional_refuted.
 Print Assumptions astral_printable_refuted.
+Print Assumptions parsed_roundtrip_ascii_unconditional_refuted.
